@@ -147,6 +147,10 @@ theorem recvErr_sum (c : Cfg) (s1 : St) (i : Nat) (r : Res) (hm : s1.main = .run
   · refine ⟨by simp, by simp, by simp, by simp, by simp, by simp, ?_⟩
     exact loopHead_outcome c { s1 with ctx := cancelFor c s1.ctx i, doneErr := s1.doneErr ++ [i] } false hm
 
+/-- a terminal result is an error. -/
+theorem isTerminal_ne_ok {c : Cfg} {s : St} {i : Nat} {r : Res} (h : isTerminal c s i r = true) : r ≠ .ok := by
+  intro hr; subst hr; simp [isTerminal] at h
+
 theorem recvStep_sum (c : Cfg) (s : St) (i : Nat) (r : Res) (rest : List (Nat × Res)) (hm : s.main = .running) :
     (recvStep c s i r rest).phase = upd s.phase i .consumed ∧ (recvStep c s i r rest).chan = rest ∧
     (recvStep c s i r rest).fin = s.fin ∧ (recvStep c s i r rest).started = s.started ∧
@@ -157,8 +161,7 @@ theorem recvStep_sum (c : Cfg) (s : St) (i : Nat) (r : Res) (rest : List (Nat ×
   simp only []
   split
   · rename_i ht
-    simp only [Bool.and_eq_true, decide_eq_true_eq] at ht
-    have hr : r ≠ .ok := by rw [ht.2]; decide
+    have hr : r ≠ .ok := isTerminal_ne_ok ht
     refine ⟨by simp, by simp, by simp, by simp, by simp, by simp [hr], ?_⟩
     right; left; simp [hr]
   · split
@@ -185,5 +188,13 @@ theorem recvStep_sum (c : Cfg) (s : St) (i : Nat) (r : Res) (rest : List (Nat ×
 @[simp] theorem startRequests_fin (c : Cfg) (o : List Nat) (s : St) : (startRequests c o s).fin = s.fin := by unfold startRequests; split <;> (try (simp only []; split)) <;> simp
 @[simp] theorem startRequests_nTicks (c : Cfg) (o : List Nat) (s : St) : (startRequests c o s).nTicks = s.nTicks := by unfold startRequests; split <;> (try (simp only []; split)) <;> simp
 @[simp] theorem startRequests_nFailRel (c : Cfg) (o : List Nat) (s : St) : (startRequests c o s).nFailRel = s.nFailRel := by unfold startRequests; split <;> (try (simp only []; split)) <;> simp
+
+@[simp] theorem releaseNext_abT (c : Cfg) (s : St) : (releaseNext c s).abT = s.abT := by unfold releaseNext; split <;> simp
+@[simp] theorem onSucceeded_abT (c : Cfg) (s : St) : (onSucceeded c s).abT = s.abT := by simp [onSucceeded]
+@[simp] theorem trackerDone_abT (c : Cfg) (s : St) (i : Nat) (b : Bool) : (trackerDone c s i b).abT = s.abT := by
+  by_cases hz : c.zoneMode <;> cases b <;> simp only [trackerDone, hz] <;> (repeat' split) <;> simp
+@[simp] theorem finishOk_abT (c : Cfg) (s : St) : (finishOk c s).abT = s.abT := by simp [finishOk]
+@[simp] theorem loopHead_abT (c : Cfg) (s : St) : (loopHead c s).abT = s.abT := by unfold loopHead; split <;> simp
+@[simp] theorem startRequests_abT (c : Cfg) (o : List Nat) (s : St) : (startRequests c o s).abT = s.abT := by unfold startRequests; split <;> (try (simp only []; split)) <;> simp
 
 end PfC11
